@@ -10,7 +10,7 @@ The property oracle is metamorphic and does not use the Lean side: the same exce
 every supplied text replaced by an inert alphanumeric token; the real body must be that skeleton with each token
 replaced by the (escaped / verbatim) text — nothing else may depend on the text.
 """
-import html as _html, io, json, sys
+import html as _html, io, json, re, sys
 
 import vfutil
 from vfutil import bump
@@ -125,8 +125,34 @@ def rand_template(rng, bad=False):
     return ''.join(parts)
 
 
+def rand_req_text(rng, sep=''):
+    parts = []
+    for _ in range(rng.choice([1, 1, 2, 3])):
+        k = rng.random()
+        parts.append(rng.choice(ATTACK) if k < 0.45 else rng.choice(DOLLAR) if k < 0.6 else rng.choice(NONASCII[:6]) if k < 0.75 else rng.choice(WORDS))
+    t = sep.join(parts)
+    return ''.join(c for c in t if ord(c) >= 32 and ord(c) != 127 and c != '\u2028')
+
+
+def gen_router_app(rng):
+    st = {'dn': rng.random() < 0.6, 'da': rng.random() < 0.5, 'dr': rng.random() < 0.3, 'slash': rng.random() < 0.35}
+    kinds = ROUTER_KINDS if st['slash'] else ROUTER_KINDS[:-1]
+    case = {'mode': 'router_app', 'settings': st, 'kind': rng.choice(kinds + ['notfound', 'forbidden']), 'accept': rand_accept(rng)}
+    if rng.random() < 0.8:
+        case['extra'] = '/'.join(rng.choice(['c', 'c', 'v', '']) + rand_req_text(rng).replace('/', '|') for _ in range(rng.choice([1, 1, 2, 3])))
+    if rng.random() < 0.8:
+        case['query'] = rng.choice(['a=1&b=2', 'q=<script>alert(1)</script>', rand_req_text(rng, '&'), 'x=' + rand_req_text(rng), '"\'>'])
+    if rng.random() < 0.3:
+        case['host'] = rng.choice(['example.com', 'ex<b>.com:80', 'h"&\':8080', rand_req_text(rng).replace(' ', '')]) or 'x'
+    if case['kind'] == 'csrf_origin' and rng.random() < 0.7:
+        case['origin'] = rng.choice(['/<b>', '.evil"&', ':1/' + rand_req_text(rng)])
+    return case
+
+
 def gen_case(rng, i=0):
     names = classes()
+    if rng.random() < 0.12:
+        return gen_router_app(rng)
     r = rng.random()
     mode = 'prepare' if r < 0.45 else 'wsgi' if r < 0.7 else 'router_404' if r < 0.8 else 'router_raise' if r < 0.93 else 'twice'
     case = {'mode': mode, 'accept': rand_accept(rng)}
@@ -178,6 +204,12 @@ def gen_case(rng, i=0):
         case['accept2'] = rand_accept(rng)
     if rng.random() < 0.3:
         surface(rng, case)
+    if rng.random() < 0.06:
+        for k in ('detail', 'comment', 'explanation'):
+            if rng.random() < 0.5:
+                case[k + '_html'] = rng.choice(['<i>m</i>', '<br/>', 'a&b', '', '${detail}<u>$$</u>', rand_text(rng)])
+                if k == 'explanation' and case.get(k) is None:
+                    case[k] = rand_text(rng)
     return case
 
 
@@ -247,6 +279,23 @@ def wsgi_extras(env):
     return env
 
 
+class Markup(str):
+    """a value with __html__ (a str subclass, like markupsafe.Markup): webob.html_escape returns __html__() verbatim"""
+    def __new__(cls, text, html):
+        self = str.__new__(cls, text)
+        self._h = html
+        return self
+
+    def __html__(self):
+        return self._h
+
+
+def _val(case, key):
+    v = case.get(key)
+    h = case.get(key + '_html')
+    return Markup(v or '', h) if h is not None else v
+
+
 def _alt_formatter(status, body, title, environ):
     return {'error': body, 'status': status, 'n': 1}
 
@@ -283,13 +332,13 @@ def make_exc(case):
             kw['json_formatter'] = _alt_formatter
     hdrs = [tuple(h) for h in case.get('headers') or []]
     if case.get('via') == 'exception_response':
-        exc = HX.exception_response(cls.code, detail=case.get('detail'), comment=case.get('comment'), headers=hdrs or None, **kw)
+        exc = HX.exception_response(cls.code, detail=_val(case, 'detail'), comment=_val(case, 'comment'), headers=hdrs or None, **kw)
         if type(exc) is not cls:
             raise RuntimeError('exception_response(%s) is not %s' % (cls.code, cls.__name__))
     else:
-        exc = cls(detail=case.get('detail'), comment=case.get('comment'), headers=hdrs or None, **kw)
-    if case.get('explanation') is not None:
-        exc.explanation = case['explanation']
+        exc = cls(detail=_val(case, 'detail'), comment=_val(case, 'comment'), headers=hdrs or None, **kw)
+    if case.get('explanation') is not None or case.get('explanation_html') is not None:
+        exc.explanation = _val(case, 'explanation')
     for attr, val in case.get('after') or []:
         if attr not in ('content_type', 'charset', 'detail', 'comment', 'explanation', 'status'):
             raise ValueError('unsupported attribute %s' % attr)
@@ -356,11 +405,147 @@ def _err(e):
 
 EMPTY_PRE = {'headers': [], 'has_body': False}
 
+ROUTER_KINDS = ['notfound', 'forbidden', 'mismatch', 'multiview_mismatch', 'route_without_view', 'csrf_origin', 'append_slash']
+_RAPPS = {}
+_SEEN = {}
+
+
+def _tween_factory(handler, registry):
+    def tween(request):
+        resp = handler(request)
+        _SEEN['resp'] = resp
+        if isinstance(resp, HX.HTTPException):
+            _SEEN['pre'] = pre_state(resp)
+        return resp
+    return tween
+
+
+class _Res:
+    """a resource whose repr shows the (request-derived) name it was reached by"""
+    def __init__(self, name):
+        self.name = name
+
+    def __getitem__(self, k):
+        if k.startswith('c'):
+            return _Res(k)
+        raise KeyError(k)
+
+    def __repr__(self):
+        return '<Res %s>' % self.name
+
+
+class _Deny:
+    def identity(self, request): return None
+    def authenticated_userid(self, request): return None
+
+    def permits(self, request, context, permission):
+        from pyramid.security import Denied
+        return Denied('no <b>%s</b> for you', permission)
+
+    def remember(self, request, userid, **kw): return []
+    def forget(self, request, **kw): return []
+
+
+def _ok_view(request):
+    from pyramid.response import Response
+    return Response('ok')
+
+
+def _ok_view2(request):
+    from pyramid.response import Response
+    return Response('ok2')
+
+
+def router_app(settings):
+    key = tuple(bool(settings.get(k)) for k in ('dn', 'da', 'dr', 'slash'))
+    if key not in _RAPPS:
+        import types
+        from pyramid.config import Configurator
+        if '_c19_harness_tween' not in sys.modules:
+            mod = types.ModuleType('_c19_harness_tween')
+            mod.factory = _tween_factory
+            sys.modules['_c19_harness_tween'] = mod
+        config = Configurator(settings={'pyramid.debug_notfound': key[0], 'pyramid.debug_authorization': key[1], 'pyramid.debug_routematch': key[2]},
+                              root_factory=lambda request: _Res('root'))
+        config.set_security_policy(_Deny())
+        config.add_tween('_c19_harness_tween.factory')
+        config.add_view(_ok_view, name='secret', permission='p<erm>')
+        config.add_view(_ok_view, name='pm', request_method='POST')
+        config.add_view(_ok_view, name='pm2', request_method='POST')
+        config.add_view(_ok_view2, name='pm2', request_method='PUT')
+        config.add_view(_ok_view, name='csrf', require_csrf=True)
+        config.add_route('item', '/items/{id}')
+        config.add_route('slash', '/slash/')
+        config.add_view(_ok_view, route_name='slash')
+        if key[3]:
+            config.add_notfound_view(append_slash=True)
+        _RAPPS[key] = config.make_wsgi_app()
+    return _RAPPS[key]
+
+
+def router_environ(case):
+    kind, extra = case['kind'], case.get('extra') or ''
+    path = {'notfound': '/c1/' + extra + '/nothing', 'forbidden': '/c1/secret/' + extra, 'mismatch': '/pm/' + extra,
+            'multiview_mismatch': '/pm2/' + extra, 'route_without_view': '/items/x' + extra.replace('/', '_'),
+            'csrf_origin': '/csrf', 'append_slash': '/slash'}[kind]
+    env = wsgi_extras(base_environ({'accept': case.get('accept')}))
+    env['wsgi.errors'] = io.StringIO()
+    l1 = lambda t: t.encode('utf-8').decode('latin-1')
+    env['PATH_INFO'] = l1(path)
+    env['QUERY_STRING'] = l1(case.get('query') or '')
+    env['HTTP_HOST'] = l1(case.get('host') or 'localhost:80')
+    if kind == 'csrf_origin':
+        env['REQUEST_METHOD'] = 'POST'
+        env['wsgi.url_scheme'] = 'https'
+        env['HTTP_ORIGIN'] = l1('https://evil.example' + (case.get('origin') or ''))
+    return env
+
+
+def _plain(v):
+    """(text, html) of a value found on an exception"""
+    if v is not None and hasattr(v, '__html__'):
+        return (str.__str__(v) if isinstance(v, str) else str(v)), v.__html__()
+    return (v if v is None or isinstance(v, str) else str(v)), None
+
+
+def impl_router_app(case):
+    env = router_environ(case)
+    _SEEN.clear()
+    got = {}
+
+    def start_response(status, headers, exc_info=None):
+        got['status'], got['headers'] = status, headers
+    try:
+        body = b''.join(router_app(case.get('settings') or {})(env, start_response))
+    except Exception as e:
+        return _err(e), dict(_SEEN.get('pre', EMPTY_PRE)), None
+    resp = _SEEN.get('resp')
+    pre = dict(_SEEN.get('pre', EMPTY_PRE))
+    if not isinstance(resp, HX.HTTPException):
+        return {'r': 'raised', 'type': 'not-an-http-exception:%s' % type(resp).__name__}, pre, None
+    cls = type(resp)
+    d, dh = _plain(resp.detail)
+    c, ch = _plain(resp.comment)
+    x, xh = _plain(resp.explanation)
+    # what pyramid put into the exception: the model renders from exactly this
+    pre['exc'] = {'cls': {'name': cls.__name__, 'code': cls.code, 'title': cls.title, 'explanation': str.__str__(cls.explanation) if isinstance(cls.explanation, str) else '',
+                          'body': cls.body_template_obj.template, 'html': cls.html_template_obj.template, 'plain': cls.plain_template_obj.template,
+                          'custom': cls.body_template_obj is not HX.HTTPException.body_template_obj, 'empty': bool(cls.empty_body)},
+                  'detail': d, 'detail_html': dh, 'comment': c, 'comment_html': ch, 'explanation': x, 'explanation_html': xh,
+                  'environ': [[k, v] for k, v in env.items() if isinstance(v, str)],
+                  'plain_values': all(v is None or type(v) is str for v in (resp.detail, resp.comment, getattr(resp, 'message', None), resp.explanation))}
+    ct = [v for k, v in got['headers'] if k.lower() == 'content-type']
+    hct = ct[0] if ct else None
+    return _obs(None, hct.split(';')[0] if hct else None, body, hct), pre, hct
+
+
 
 def impl(case):
     """-> (observation, state of the exception before prepare, Content-Type header sent or None)"""
     mode = case['mode']
     try:
+        if mode == 'router_app':
+            return impl_router_app(case)
         if mode in ('prepare', 'twice', 'wsgi'):
             try:
                 make_exc(case)
@@ -471,6 +656,13 @@ def eff_accept(case, obs):
 def to_model(ctx, case, pre, obs=None):
     """the driver's input for a case; `pre` = exc.headers.items() and exc.has_body as they were before prepare"""
     hdrs = pre['headers']
+    if case['mode'] == 'router_app':
+        x = pre.get('exc')
+        if x is None:
+            return {'cls': 'HTTPNotFound', 'detail': None, 'comment': None, 'headers': [], 'environ': [], 'q': {}, 'has_body': True}
+        return {'cls': x['cls'], 'detail': x['detail'], 'detail_html': x['detail_html'], 'comment': x['comment'], 'comment_html': x['comment_html'],
+                'explanation': x['explanation'], 'explanation_html': x['explanation_html'], 'headers': hdrs, 'has_body': pre['has_body'],
+                'environ': x['environ'], 'q': q_values(case.get('accept'))}
     if obs is not None and 'eff_accept' in obs:
         case = dict(case, accept=obs['eff_accept'])
     if case['mode'] == 'router_404':
@@ -487,7 +679,10 @@ def to_model(ctx, case, pre, obs=None):
         if attr in ('detail', 'comment', 'explanation', 'status'):
             late[attr] = None if val in ('<None>', '<del>') else val
     m = {'detail': late.get('detail', case.get('detail')), 'comment': late.get('comment', case.get('comment')),
-         'explanation': late.get('explanation', case.get('explanation')), 'status': late.get('status'), 'has_body': pre['has_body'],
+         'explanation': late.get('explanation', case.get('explanation') if case.get('explanation_html') is None else (case.get('explanation') or '')), 'status': late.get('status'), 'has_body': pre['has_body'],
+         'detail_html': case.get('detail_html') if 'detail' not in late else None,
+         'comment_html': case.get('comment_html') if 'comment' not in late else None,
+         'explanation_html': case.get('explanation_html') if 'explanation' not in late else None,
          'body_template': case.get('body_template'), 'headers': hdrs, 'environ': [[k, v] for k, v in env.items()],
          'q': q_values(case.get('accept'))}
     sub = case.get('sub')
@@ -524,9 +719,14 @@ def supplied_texts(case):
     out = []
     if case['mode'] == 'router_404':
         return [(('path',), case['path'])] if case['path'] else []
+    if case['mode'] == 'router_app':
+        return [((k,), case[k]) for k in ('extra', 'query', 'host', 'origin') if case.get(k)]
     for k in ('detail', 'comment', 'explanation', 'location'):
         if case.get(k):
             out.append(((k,), case[k]))
+    for k in ('detail_html', 'comment_html', 'explanation_html'):
+        if case.get(k):
+            out.append(((k,), case[k]))            # what a markup object's __html__ returns: shown verbatim in the HTML form (by design)
     if case.get('sub') and case['sub'].get('explanation'):
         out.append((('sub', 'explanation'), case['sub']['explanation']))
     for i, (k, v) in enumerate(case.get('after') or []):
@@ -562,7 +762,7 @@ def tokenised(case):
         tok = '%s%dZ' % (stem, i)
         if path == ('path',):
             tok = '/' + tok
-        toks.append((tok, t))
+        toks.append((tok, t, path[-1] in ('detail_html', 'comment_html', 'explanation_html')))
         c2 = _set(c2, list(path), tok)
     return c2, toks
 
@@ -574,9 +774,9 @@ def replace_all(s, toks, f):
     out, i = [], 0
     toks = sorted(toks, key=lambda p: -len(p[0]))
     while i < len(s):
-        for tok, t in toks:
+        for tok, t, raw in toks:
             if s.startswith(tok, i):
-                out.append(f(t)); i += len(tok)
+                out.append(t if raw else f(t)); i += len(tok)
                 break
         else:
             out.append(s[i]); i += 1
@@ -596,10 +796,84 @@ def best_forms(accept):
 META = '<>"\''
 
 
+REF_RE = re.compile(r'&(?:amp|lt|gt|quot|#x27|#[0-9]+);')
+
+
+_NAMED = {'amp': '&', 'lt': '<', 'gt': '>', 'quot': '"', '#x27': "'"}
+
+
+def unescape_strict(t):
+    """the five references html_escape writes and decimal references, nothing else (html.unescape remaps &#128;..&#159;)"""
+    return re.sub(r'&(amp|lt|gt|quot|#x27|#[0-9]+);', lambda m: _NAMED.get(m.group(1)) or chr(int(m.group(1)[1:])), t)
+
+
+def benign_request(case):
+    """the same request with inert alphanumeric texts in place of everything the requester chose"""
+    c = dict(case)
+    if case.get('extra'):
+        c['extra'] = '/'.join((seg[:1] if seg[:1].isalnum() and seg[:1].isascii() else '') + 'QZs%dZ' % i for i, seg in enumerate(case['extra'].split('/')))
+    if case.get('query'):
+        c['query'] = 'QZq=QZv'
+    if case.get('host'):
+        c['host'] = 'QZh:80'
+    if case.get('origin'):
+        c['origin'] = '/QZo'
+    return c
+
+
+def check_router_app(case, obs, hct):
+    """the property on a page the Router itself produced (debug settings on or off): requester-chosen text (path, query
+    string, Host, Origin, and what reprs of contexts / match values show of them) occurs in the HTML form only escaped"""
+    sk, _, _ = impl(benign_request(case))
+    if obs['r'] != 'ok' or sk['r'] != 'ok':
+        if obs['r'] == sk['r'] and obs.get('type') == sk.get('type') and obs.get('err') == sk.get('err'):
+            return None
+        return {'case': case, 'impl': obs, 'expected': sk, 'detail': 'the outcome depends on the request text: an inert request to the same view gives a different kind of result'}
+    wants = best_forms(case.get('accept'))
+    want = obs['ctype']
+    if want not in wants or (hct or '').split(';')[0].strip().lower() != want:
+        return {'case': case, 'impl': {'ctype': obs['ctype'], 'header': hct}, 'expected': {'ctype_one_of': wants},
+                'detail': 'not rendered in the best acceptable of text/html, application/json, text/plain'}
+    env = router_environ(case)
+    body = obs['body']
+    st = case.get('settings') or {}
+    shows_url = bool(env['QUERY_STRING']) and ((st.get('dn') and case['kind'] == 'notfound') or (st.get('da') and case['kind'] == 'forbidden')
+                                               or case['kind'] == 'append_slash')
+    if want == 'text/html':
+        for ch in META:
+            if body.count(ch) != sk['body'].count(ch):
+                return {'case': case, 'impl': {'body': body}, 'expected': {'count of %r' % ch: sk['body'].count(ch)},
+                        'detail': 'the HTML page has a different number of raw %r than the same page for an inert request: markup chosen by the requester' % ch}
+        bad = [m.start() for m in re.finditer('&', body) if not REF_RE.match(body, m.start())]
+        if bad:
+            return {'case': case, 'impl': {'body': body, 'at': bad[:3]}, 'expected': 'every & begins a character reference',
+                    'detail': 'a bare & in the HTML page (request text inserted unescaped)'}
+        if shows_url and env['QUERY_STRING'] not in unescape_strict(body):
+            return {'case': case, 'impl': {'body': body}, 'expected': {'unescaped body contains': env['QUERY_STRING']},
+                    'detail': 'reading the character references of the HTML page back does not give the query string: it was not escaped exactly once'}
+        return None
+    if want == 'application/json':
+        try:
+            got = json.loads(body)
+        except ValueError as e:
+            return {'case': case, 'impl': {'body': body}, 'expected': 'valid JSON', 'detail': 'JSON body does not parse: %s' % e}
+        if not isinstance(got, dict) or not isinstance(got.get('message'), str):
+            return {'case': case, 'impl': {'body': body}, 'expected': 'object with a string message', 'detail': 'JSON body has no message'}
+        shown_text = got['message']
+    else:
+        shown_text = body
+    if shows_url and env['QUERY_STRING'] not in shown_text:
+        return {'case': case, 'impl': {'text': shown_text}, 'expected': {'contains': env['QUERY_STRING']},
+                'detail': 'the message does not show the URL verbatim in the %s form' % want}
+    return None
+
+
 def check_property(case, obs, hct=None):
     """None, or a violation dict.  Uses only the implementation (twice) and Python's html/json modules."""
     if obs['r'] in ('untouched', 'construct-failed'):
         return None
+    if case['mode'] == 'router_app':
+        return check_router_app(case, obs, hct)
     sk_case, toks = tokenised(case)
     sk, _, _ = impl(sk_case)
     eff = eff_accept(case, obs)
@@ -673,10 +947,13 @@ def shown(case, obs):
 
 
 def valid_case(case):
-    if not isinstance(case, dict) or case.get('mode') not in ('prepare', 'wsgi', 'router_404', 'router_raise', 'twice'):
+    if not isinstance(case, dict) or case.get('mode') not in ('prepare', 'wsgi', 'router_404', 'router_raise', 'twice', 'router_app'):
         return False
     if case['mode'] == 'router_404':
         return isinstance(case.get('path'), str)
+    if case['mode'] == 'router_app':
+        return case.get('kind') in ROUTER_KINDS and all(isinstance(case.get(k) or '', str) for k in ('extra', 'query', 'host', 'origin')) \
+            and isinstance(case.get('settings') or {}, dict) and not (case['kind'] == 'append_slash' and not (case.get('settings') or {}).get('slash'))
     return case.get('cls') in classes()
 
 
@@ -761,6 +1038,12 @@ def run_cases(ctx, cases, dist=None):
             bump(dist.setdefault('text_features', {}), ft)
         if case.get('body_template') is not None or (case.get('sub') or {}).get('body') is not None:
             bump(dist, 'custom_template_cases')
+        if case['mode'] == 'router_app':
+            bump(dist.setdefault('router_kinds', {}), case['kind'])
+            st = case.get('settings') or {}
+            bump(dist.setdefault('router_settings', {}), ','.join(k for k in ('dn', 'da', 'dr', 'slash') if st.get(k)) or 'none')
+        if any(case.get(k + '_html') is not None for k in ('detail', 'comment', 'explanation')):
+            bump(dist, 'markup_object_cases')
         if case.get('sub'):
             bump(dist, 'adhoc_subclass_cases')
         for k in (case.get('ctor') or {}):
@@ -882,6 +1165,20 @@ def search(ctx):
                         c['location'] = '/x<y>'
                     cases.append(c)
     cases += [{'mode': 'router_404', 'path': '/' + d, 'accept': a} for d in details for a in accepts]
+    # the Router's own paths over the debug-settings cube
+    for dn in (False, True):
+        for da in (False, True):
+            for dr in (False, True):
+                for sl in (False, True):
+                    for kind in ROUTER_KINDS:
+                        if kind == 'append_slash' and not sl:
+                            continue
+                        for hostile in (False, True):
+                            for acc in ('text/html', 'application/json', 'text/plain', '*/*', None):
+                                c = {'mode': 'router_app', 'settings': {'dn': dn, 'da': da, 'dr': dr, 'slash': sl}, 'kind': kind, 'accept': acc}
+                                if hostile:
+                                    c.update({'extra': 'c<b>"\'&/v<i>', 'query': 'q=<script>alert(1)</script>&a=1&b=2', 'host': 'h<o>"st:80', 'origin': '/<b>"&'})
+                                cases.append(c)
     # the caller's initial content type x Accept x 3 classes x how it was set
     for name in ('HTTPNotFound', 'HTTPBadRequest', 'HTTPFound'):
         for ct in [None, 'text/html', 'application/json', 'text/plain', 'image/png', 'text/plain; charset=latin-1']:
@@ -912,7 +1209,7 @@ def search(ctx):
             return {'violations': [shrink_violation(ctx, x) for x in viol], 'searched': n, 'exhaustive': False}
     return {'violations': [shrink_violation(ctx, x) for x in viol], 'searched': n, 'exhaustive': len(viol) == 0,
             'scope': 'every class x {0,0.5,1}^3 q-combinations (+5 headers) x 11 hostile details x comment in {None,"<"}; router 404 for the same details; '
-                     '{HTTPNotFound, HTTPBadRequest, HTTPFound} x 6 initial content types x {keyword, attribute, header, exception_response} x the same Accept headers x {prepare, wsgi}'}
+                     '{HTTPNotFound, HTTPBadRequest, HTTPFound} x 6 initial content types x {keyword, attribute, header, exception_response} x the same Accept headers x {prepare, wsgi}; the Router with {debug_notfound, debug_authorization, debug_routematch, append-slash}^2 x 7 path kinds x {benign, hostile request} x 5 Accept values'}
 
 
 def replay(ctx, rep):
